@@ -9,6 +9,7 @@ import PasfmtModel.Proofs.Simd
 import PasfmtModel.Proofs.Keywords
 import PasfmtModel.Proofs.LexTotal
 import PasfmtModel.Proofs.LexBoundaries
+import PasfmtModel.Proofs.LexLocal6
 
 namespace Pasfmt.C13
 
@@ -85,5 +86,17 @@ example : validUtf8 [66, 101, 103, 105, 110, 32, 123, 99, 125, 32, 195, 169, 32,
 -- multi-line string and non-ASCII text is accepted by the model and yields 10 tokens.
 example : (lex [66, 101, 103, 105, 110, 32, 123, 99, 125, 32, 120, 32, 58, 61, 32, 39, 39, 39, 10, 32, 97, 10, 32, 39, 39, 39, 59, 123, 36, 82, 43, 125, 32, 195, 169, 32, 101, 110, 100]).map List.length = some 10 := by
   decide +kernel
+
+/-- **Token boundaries and kinds do not depend on the position in the text or on what follows.**
+    What the scanner finds at the head of `p ++ s` (blanks, end, kind, next state) it finds at the
+    head of `p ++ s'` for every other continuation `s'`, as soon as the token ends three bytes (one
+    character of lookahead) before the end of `p`.  Since the scanner only ever looks at the text from
+    the current offset on (`lexFuel` passes `inp.drop e`), what precedes a token matters only through
+    the three-field state.  Holds for every token class and every length. -/
+theorem scan_is_position_independent (st : LexState) (p s s' : Bytes) (ws e : Nat) (k : RawKind) (st' : LexState)
+    (ht : countTrailingWs (p ++ s) ≤ s.length)
+    (h : lexOne false st (p ++ s) = some (some (ws, e, k, st'))) (he : e + 3 ≤ p.length) :
+    lexOne false st (p ++ s') = some (some (ws, e, k, st')) :=
+  lexOne_local st p s s' ws e k st' ht h he
 
 end Pasfmt.C13
